@@ -346,6 +346,95 @@ func c01BaseCtx(tokens []string, conc int, b Bounds) *Scenario {
 // c01PushCollide: on a push-enabled server the ids of the server's own callbacks and the ids chosen by
 // the client are independent number spaces. While a callback with id P is unanswered the client sends
 // calls (single and in a batch) that carry the same id text P: they are requests, not replies.
+// c01Odd: a few shapes outside the token alphabet, one after the other on a push-enabled server: the reply
+// to a pending callback batched with a call; a batch preceded by white space; a handler whose error reports
+// the code NoError. Every call gets exactly one response with a result or an error, nothing else is sent.
+func c01Odd() *Scenario {
+	return &Scenario{
+		Name:   "push-enabled: callback reply batched with a call; batch after leading white space; handler error with code NoError",
+		Params: map[string]any{},
+		Bounds: Bounds{0, 0, 0},
+		New: func() *Instance {
+			h := &seqHarness{gates: NewGates()}
+			body := func() {
+				lib, peer, pipe := NewPipe(PipeOpts{Name: "srv", CloseUnblocksRecv: true})
+				h.pipe, h.peer = pipe, peer
+				inner := h.handler()
+				hd := func(ctx context.Context, req *jrpc2.Request) (any, error) {
+					if req.Method() == "noerr" {
+						return nil, myCoder{c: jrpc2.NoError}
+					}
+					return inner(ctx, req)
+				}
+				srv := jrpc2.NewServer(anyAssigner{hd}, &jrpc2.ServerOptions{Concurrency: 4, AllowPush: true})
+				srv.Start(lib)
+				vs.GoNamed("peer", func() {
+					defer peer.Close()
+					peer.Send([]byte(`{"jsonrpc":"2.0","id":100,"method":"q0"}`))
+					pushID := ""
+					for pushID == "" {
+						rec, ok := peer.Recv()
+						if !ok {
+							return
+						}
+						ms, _, _ := parseRecord(rec)
+						for _, m := range ms {
+							if m.Has("method") && m.Has("id") {
+								pushID = m.ID()
+							}
+						}
+					}
+					peer.Send([]byte(fmt.Sprintf(`[{"jsonrpc":"2.0","id":%s,"result":"cbreply"},{"jsonrpc":"2.0","id":7,"method":"c1"}]`, pushID)))
+					vs.AwaitQuiescence()
+					peer.Send([]byte("\n\t [{\"jsonrpc\":\"2.0\",\"id\":8,\"method\":\"c2\"},{\"jsonrpc\":\"2.0\",\"id\":9,\"method\":\"c3\"}]"))
+					vs.AwaitQuiescence()
+					peer.Send([]byte(" \r\n[{\"jsonrpc\":\"2.0\",\"id\":11,\"method\":\"c4\"}] "))
+					vs.AwaitQuiescence()
+					peer.Send([]byte(`{"jsonrpc":"2.0","id":10,"method":"noerr"}`))
+					vs.AwaitQuiescence()
+					vs.Note("quiet")
+				})
+				srv.WaitStatus()
+			}
+			check := func(x *vs.Exec) []Viol {
+				v := genericRules(x, nil)
+				if x.Outcome != "ok" {
+					return v
+				}
+				Hit("C01.R1")
+				seen := map[string]int{}
+				for _, o := range outEvents(x, "srv") {
+					ms, _, err := parseRecord([]byte(o.Raw))
+					if err != nil {
+						v = append(v, Viol{"C01.R2", "unparsable output " + o.Raw})
+						continue
+					}
+					for _, m := range ms {
+						if m.Has("method") {
+							continue // the pushed callback
+						}
+						seen[m.ID()]++
+						if m.Has("result") == m.Has("error") {
+							v = append(v, Viol{"C01.R1", "a response must carry exactly one of result and error: " + string(m.Raw)})
+						}
+					}
+				}
+				for _, id := range []string{"100", "7", "8", "9", "10", "11"} {
+					if seen[id] != 1 {
+						v = append(v, Viol{"C01.R1", fmt.Sprintf("call %s received %d responses, want exactly one", id, seen[id])})
+					}
+					delete(seen, id)
+				}
+				for id, n := range seen {
+					v = append(v, Viol{"C01.R2", fmt.Sprintf("%d response(s) with id %s that answer no call", n, id)})
+				}
+				return v
+			}
+			return &Instance{Body: body, Check: check}
+		},
+	}
+}
+
 func c01PushCollide(b Bounds) *Scenario {
 	return &Scenario{
 		Name:   "push-enabled: client calls carrying the id of an unanswered server callback",
@@ -484,7 +573,7 @@ func c01Scenarios(tier string) []*Scenario {
 		for _, p := range [][]string{{"g", "n", "c"}, {"g", "c", "c"}} {
 			out = append(out, c01BaseCtx(p, 1, Bounds{1, -1, 0}))
 		}
-		out = append(out, c01PushCollide(Bounds{1, 1, 0}))
+		out = append(out, c01PushCollide(Bounds{1, 1, 0}), c01Odd())
 		return out
 	}
 	for _, a := range c01Alphabet {
@@ -512,7 +601,7 @@ func c01Scenarios(tier string) []*Scenario {
 		out = append(out, c01BaseCtx(p, 1, Bounds{2, -1, 0}))
 	}
 	out = append(out, c01BaseCtx([]string{"g", "g", "n", "c"}, 2, Bounds{2, -1, 0}), c01BaseCtx([]string{"c", "n", "c"}, 2, Bounds{2, -1, 0}))
-	out = append(out, c01PushCollide(Bounds{2, 2, 0}))
+	out = append(out, c01PushCollide(Bounds{2, 2, 0}), c01Odd())
 	sub := []string{"c", "n", "[cn]", "[cc]", "d", "y", "z"}
 	for _, a := range sub {
 		for _, b := range sub {
